@@ -328,19 +328,74 @@ ASAN_ENV = {"ASAN_OPTIONS": "detect_leaks=1:abort_on_error=0:exitcode=99:allocat
             "LSAN_OPTIONS": "exitcode=98"}
 
 
+def _cpu_ticks(pid):
+    try:
+        f = open("/proc/%d/stat" % pid).read().rsplit(")", 1)[1].split()
+        return int(f[11]) + int(f[12])          # utime + stime
+    except (OSError, IndexError, ValueError):
+        return -1
+
+
 def _run_proc(cmd, text, timeout, env=None):
+    """Run one process on `text`. `timeout` is an INACTIVITY limit: the process is killed when it has
+    produced no output and used no CPU time for that long (blocked for ever), or when it has run for
+    10 x timeout altogether. A machine that is merely slow (many checks at once) therefore never turns
+    a healthy run into a 'crash'; endless loops inside the library are ended by the harness' own
+    per-operation watchdog (vharness.h)."""
+    import threading
     e = dict(os.environ)
     e.update(ASAN_ENV)
     if env:
         e.update(env)
-    try:
-        r = subprocess.run(cmd, input=text, stdout=subprocess.PIPE, stderr=subprocess.PIPE,
-                           text=True, timeout=timeout, env=e, errors="replace")
-        return r.returncode, r.stdout, r.stderr
-    except subprocess.TimeoutExpired as ex:
-        so = ex.stdout.decode(errors="replace") if isinstance(ex.stdout, bytes) else (ex.stdout or "")
-        se = ex.stderr.decode(errors="replace") if isinstance(ex.stderr, bytes) else (ex.stderr or "")
+    p = subprocess.Popen(cmd, stdin=subprocess.PIPE, stdout=subprocess.PIPE, stderr=subprocess.PIPE, env=e)
+    out, err = [], []
+    last = [time.time()]
+
+    def feed():
+        try:
+            p.stdin.write(text.encode())
+            p.stdin.close()
+        except (BrokenPipeError, OSError):
+            pass
+
+    def drain(f, sink):
+        while True:
+            b = f.read1(65536) if hasattr(f, "read1") else f.read(65536)
+            if not b:
+                break
+            sink.append(b)
+            last[0] = time.time()
+    ths = [threading.Thread(target=feed, daemon=True),
+           threading.Thread(target=drain, args=(p.stdout, out), daemon=True),
+           threading.Thread(target=drain, args=(p.stderr, err), daemon=True)]
+    for t in ths:
+        t.start()
+    t0 = time.time()
+    cpu = _cpu_ticks(p.pid)
+    timed_out = False
+    while True:
+        try:
+            p.wait(timeout=1.0)          # returns at once when the process ends
+            break
+        except subprocess.TimeoutExpired:
+            pass
+        now = time.time()
+        c = _cpu_ticks(p.pid)
+        if c != cpu:
+            cpu = c
+            last[0] = now
+        if now - last[0] > timeout or now - t0 > 10 * timeout:
+            timed_out = True
+            p.kill()
+            break
+    p.wait()
+    for t in ths[1:]:
+        t.join(5)
+    so = b"".join(out).decode(errors="replace")
+    se = b"".join(err).decode(errors="replace")
+    if timed_out:
         return -999, so, se + "\n<timeout>"
+    return p.returncode, so, se
 
 
 def _parse_cases(stdout):
@@ -358,21 +413,32 @@ def _parse_cases(stdout):
     return res
 
 
-def run_cases(cmd, cases, timeout=300, workers=None, env=None, chunk=None):
+CRASH_CAP = int(os.environ.get("VERIF_CRASH_CAP", "32"))
+
+
+def run_cases(cmd, cases, timeout=300, workers=None, env=None, chunk=None, crash_cap=None):
     """Run every case (list of op-line lists) through `cmd` (argv). Returns a list,
     one entry per case: {"out": [lines], "crash": None | text}.  A process that
     dies (sanitizer abort, segfault, timeout) marks the case it was in as crashed
-    and the remaining cases of the chunk are re-run in a new process."""
+    and the remaining cases of the chunk are re-run in a new process.
+    crash_cap: once that many cases have crashed (a tree on which most cases hang or abort: every
+    one of them costs a watchdog period) the cases not yet started are not run at all and come back
+    as {"out": [], "crash": None, "skipped": True}; the callers drop them."""
     n = len(cases)
     results = [None] * n
     workers = workers or NPROC
     if chunk is None:
         chunk = max(1, min(200, (n + workers - 1) // workers))
     chunks = [list(range(i, min(n, i + chunk))) for i in range(0, n, chunk)]
+    ncrash = [0]
 
     def do_chunk(idx):
         idx = list(idx)
         while idx:
+            if crash_cap is not None and ncrash[0] >= crash_cap:
+                for i in idx:
+                    results[i] = {"out": [], "crash": None, "skipped": True}
+                return
             text = "".join("case %d\n%s\n" % (i, "\n".join(cases[i])) if cases[i]
                            else "case %d\n" % i for i in idx)
             rc, so, se = _run_proc(cmd, text, timeout, env)
@@ -390,24 +456,39 @@ def run_cases(cmd, cases, timeout=300, workers=None, env=None, chunk=None):
                 results[i] = {"out": got.get(i, []), "crash": None}
             results[bad] = {"out": got.get(bad, []),
                             "crash": "exit=%s\n%s" % (rc, se[-3000:])}
+            ncrash[0] += 1
             idx = idx[idx.index(bad) + 1:]
 
+    t0 = time.time()
     with ThreadPoolExecutor(workers) as ex:
         list(ex.map(do_chunk, chunks))
+    if os.environ.get("VERIF_TRACE_TIME") and time.time() - t0 > 3:
+        log("run_cases: %d cases, %d chunks, %.1fs (%s)" % (n, len(chunks), time.time() - t0, os.path.basename(cmd[0])))
     return results
+
+
+def drop_skipped(cases, impl):
+    """remove the cases run_cases did not run (crash storm); returns (cases, impl, number dropped)"""
+    keep = [i for i, r in enumerate(impl) if not r.get("skipped")]
+    return [cases[i] for i in keep], [impl[i] for i in keep], len(impl) - len(keep)
 
 
 def run_one(cmd, ops, timeout=60, env=None):
     return run_cases(cmd, [ops], timeout=timeout, workers=1, env=env)[0]
 
 
-def ddmin(ops, fails, keep_prefix=0, max_tests=400):
+DDMIN_BUDGET_S = float(os.environ.get("VERIF_DDMIN_BUDGET_S", "150"))
+
+
+def ddmin(ops, fails, keep_prefix=0, max_tests=400, budget_s=None):
     """Shrink `ops` (list) while `fails(ops)` stays true. The first keep_prefix
-    entries are never removed."""
+    entries are never removed. Shrinking stops after `budget_s` seconds (a failing case that hangs
+    costs a watchdog period per test): the replay is then simply less small."""
     head, body = ops[:keep_prefix], list(ops[keep_prefix:])
     tests = 0
     n = 2
-    while len(body) >= 2 and tests < max_tests:
+    t_end = time.time() + (DDMIN_BUDGET_S if budget_s is None else budget_s)
+    while len(body) >= 2 and tests < max_tests and time.time() < t_end:
         size = max(1, len(body) // n)
         reduced = False
         for start in range(0, len(body), size):
@@ -418,7 +499,7 @@ def ddmin(ops, fails, keep_prefix=0, max_tests=400):
                 n = max(n - 1, 2)
                 reduced = True
                 break
-            if tests >= max_tests:
+            if tests >= max_tests or time.time() > t_end:
                 break
         if not reduced:
             if size == 1:
@@ -681,7 +762,11 @@ def seq_correspondence(ctx, harness_cmd, driver_cmd, cases, nontrivial=None,
             if f.endswith(".ops"):
                 corpus.append([l.rstrip("\n") for l in open(os.path.join(cdir, f)) if l.strip()])
     cases = corpus + list(cases)
-    impl = run_cases(harness_cmd, cases, timeout=timeout, env=env)
+    impl = run_cases(harness_cmd, cases, timeout=timeout, env=env, crash_cap=CRASH_CAP)
+    cases, impl, nskipped = drop_skipped(cases, impl)
+    if nskipped:
+        ctx.cov.setdefault("crash_storm", {})[label] = {
+            "cases_not_run": nskipped, "why": "%d cases had already crashed / hung" % CRASH_CAP}
     mres = run_cases(driver_cmd, cases, timeout=timeout)
     model, spec = split_model_spec(mres)
     diffs = compare_streams(impl, model)
@@ -824,7 +909,11 @@ def conc_correspondence(ctx, harness_cmd, driver_cmd, runs, judge=None, label="t
     property-level oracle on the implementation's own trace (returns text when the
     property is violated)."""
     cases = [r["conf"] + ["sched " + r["sched"], "run"] for r in runs]
-    impl = run_cases(harness_cmd, cases, timeout=timeout, env=env)
+    impl = run_cases(harness_cmd, cases, timeout=timeout, env=env, crash_cap=CRASH_CAP)
+    runs, impl, nskipped = drop_skipped(list(runs), impl)
+    if nskipped:
+        ctx.cov.setdefault("crash_storm", {})[label] = {
+            "cases_not_run": nskipped, "why": "%d cases had already crashed / hung" % CRASH_CAP}
     mcases = []
     for r, a in zip(runs, impl):
         sched = ""
@@ -848,13 +937,20 @@ def conc_correspondence(ctx, harness_cmd, driver_cmd, runs, judge=None, label="t
                 except (IndexError, ValueError):
                     pass
         msg = None
+        diverged = any(l.startswith("end replay-diverged") for l in ao)
         if a["crash"]:
             msg = "crash: " + a["crash"][:1500]
+        elif diverged:
+            # a recorded schedule (corpus) that no longer fits the code under test: the access
+            # sequence changed. That breaks the tie, it is not by itself a failing input.
+            msg = None
         elif judge is not None:
             msg = judge(runs[i], a["out"])
         if msg:
             bad_prop.append((i, msg))
-        if b["crash"] or ao != bo:
+        if diverged and ao == bo:
+            bad_model.append((i, len(ao) - 1, "recorded schedule no longer applies (end replay-diverged)", "-"))
+        elif b["crash"] or ao != bo:
             j = next((k for k in range(max(len(ao), len(bo)))
                       if (ao[k] if k < len(ao) else None) != (bo[k] if k < len(bo) else None)), 0)
             bad_model.append((i, j, ao[j] if j < len(ao) else "<missing>",
